@@ -21,6 +21,7 @@ import KadDHT.Driver.C12
 import KadDHT.Driver.C05
 import KadDHT.Driver.C20
 import KadDHT.Driver.C17
+import KadDHT.Driver.C17u
 import KadDHT.Driver.C14
 open KadDHT.Driver
 
@@ -33,6 +34,7 @@ def main (args : List String) : IO UInt32 := do
   | ["C14v"] => runPure C14.verdict; return 0
   | ["C17"] => runLoop C17.step {}; return 0
   | ["C17v"] => runLoop C17.verdict {}; return 0
+  | ["C17u"] => runLoop C17u.step {}; return 0
   | ["C20"] => runLoop C20.step {}; return 0
   | ["C20v"] => runLoop C20.verdict {}; return 0
   | ["C05"] => runLoop C05.step {}; return 0
